@@ -51,6 +51,8 @@ def run(pid, cfg, tier, seed, replay, ck):
 
     with ck.Lock("build"):
         ok, log = ck.build_bins(cfg["bins"])
+        hok, hlog, _ = ck.build_harness()
+        dok, dlog = ck.lake_build(["confdriver"])
     if not ok:
         cov["explanation"] = "repository commands do not build"
         violations.append((ck.write_replay(pid, "unbuildable", "the repository's commands no longer build", seed, tier, [], {"build_log": log[-6000:]}), "no-failing-input-found"))
@@ -101,6 +103,21 @@ def run(pid, cfg, tier, seed, replay, ck):
             results.append(f.result())
 
     known_f22 = next((k for k in ck.load_known() if k.get("id") == "F22-C01" and k.get("status") == "known"), None)
+    # ---- what the Lean models of config expansion (C06) and suite expansion (C07) predict
+    predicted, model_note = {}, ""
+    if hok and dok:
+        spec = ",".join(f"{a[a.index('--conf') + 1]}:{2 if 'server' in a[a.index('--mode') + 1] else 1}" for _, a in runs)
+        f_in, f_out = os.path.join(wd, "count.jsonl"), os.path.join(wd, "count.out.jsonl")
+        p = subprocess.run([ck.HARNESS_BIN, "c01", "--out", f_in, "--work", BUILD, "--repo", REPO], env=dict(os.environ, C01_RUNS=spec), capture_output=True, text=True)
+        if p.returncode == 0:
+            ck.run_driver("c01", f_in, f_out)
+            for (li, v), (run_name, a) in zip(ck.read_pairs(f_in, f_out), runs):
+                m = v.get("model") or {}
+                predicted[run_name] = {"agree": v.get("agree"), "count": m.get("allTF" if "server" in a[a.index("--mode") + 1] else "allFT"), "library": m.get("perms")}
+        else:
+            model_note = "count harness failed: " + (p.stdout + p.stderr)[-500:]
+    else:
+        model_note = "harness or driver does not build: " + (hlog if not hok else dlog)[-800:]
     lines, total_cases, nontrivial = [], 0, 0
     rerun_log = []
     for (r, text), (run_name, args) in zip(results, runs):
@@ -113,6 +130,12 @@ def run(pid, cfg, tier, seed, replay, ck):
                 problems.append(f"total {r['total']} != computed permutations {r['computed']}")
             if r["passed"] + r["failed"] + r["expected_failures"] + 0 != r["total"] - 0 and r["could_not_run"] == 0:
                 problems.append("passed + failed + expected failures != total")
+            pr = predicted.get(run_name)
+            if pr is not None and r["computed"] is not None:
+                if pr["count"] != r["computed"]:
+                    problems.append(f"the runner computed {r['computed']} permutations, the Lean models of config and suite expansion predict {pr['count']}")
+                if not pr["agree"]:
+                    problems.append("the real test-case library disagrees with the Lean model on the permutation counts of this run")
             if r["could_not_run"]:
                 problems.append(f"{r['could_not_run']} case(s) could not be run")
             if run_name.startswith("reference") and (r["expected_failures"] or r["known_patterns"]):
@@ -153,6 +176,7 @@ def run(pid, cfg, tier, seed, replay, ck):
         rec["transient_failures"] = [n for n in r["failed_names"] if n not in persistent and n not in f22]
         rec["known_finding_F22"] = f22
         rec["persistent_failures"] = persistent
+        rec["predicted_by_lean_model"] = predicted.get(run_name)
         rec["problems"] = problems
         lines.append(rec)
         if r["total"]:
@@ -172,6 +196,8 @@ def run(pid, cfg, tier, seed, replay, ck):
                        + "; requires exit 0, zero unexpected failures, nothing could-not-run, totals = computed permutations, known-failing lists exact; failures re-run 3x in isolation",
         "evaluations": total_cases, "distinct_nontrivial": total_cases if nontrivial >= 1 else 0,
         "rule": "one evaluation = one permutation (config case x embedded test case) executed by the real runner against real peers; each is distinct by name; non-trivial = it produced an outcome",
-        "samples": lines, "exhaustive": tier == "thorough", "reruns": rerun_log,
+        "samples": lines, "exhaustive": tier == "thorough", "reruns": rerun_log, "lean_model_note": model_note,
     })
+    if model_note and not violations:
+        violations.append((ck.write_replay(pid, "model-unavailable", "the Lean-model prediction of the permutation counts could not be computed: " + model_note, seed, tier, []), "no-failing-input-found"))
     return finish()
